@@ -240,6 +240,8 @@ type gctx struct {
 	// extended type of an interface): two files of one package using the same simple name with
 	// different imports - a resolution must never be carried from one file to the other
 	forceImport map[int]string
+	// forceSvc[i] = method of interface i that carries @ServiceMethod (its twin's same-named method does not)
+	forceSvc map[int]string
 }
 
 func (g *gctx) pick(ss []string) string { return ss[g.t.Pick(len(ss))] }
@@ -283,6 +285,7 @@ func GenProject(t *tape.Tape, o Options) *Project {
 		g.classes = append(g.classes, ci)
 	}
 	g.forceField = map[int]string{}
+	g.forceSvc = map[int]string{}
 	if o.TwinNames && len(g.classes) >= 1 && t.Bool(2, 3) {
 		c := g.classes[t.Pick(len(g.classes))]
 		// a twin: same simple name in another package
@@ -295,7 +298,28 @@ func GenProject(t *tape.Tape, o Options) *Project {
 		if len(other) > 0 {
 			twin := classInfo{pkg: other[t.Pick(len(other))], name: c.name, methods: []string{g.pick(methodNames)}, isIface: c.isIface}
 			used[twin.pkg+"."+twin.name] = true
+			shared := ""
+			if o.ServiceMethod && t.Bool(1, 2) {
+				// both twins are interfaces declaring the same method; only one marks it @ServiceMethod
+				shared = g.pick(methodNames)
+				for ci := range g.classes {
+					if g.classes[ci].pkg == c.pkg && g.classes[ci].name == c.name {
+						g.classes[ci].isIface = true
+						g.classes[ci].methods = []string{shared}
+						if t.Bool(1, 2) {
+							g.forceSvc[ci] = shared
+						}
+					}
+				}
+				twin.isIface = true
+				twin.methods = []string{shared}
+			}
 			g.classes = append(g.classes, twin)
+			if shared != "" {
+				if _, marked := g.forceSvc[len(g.classes)-2]; !marked && len(g.forceSvc) == 0 {
+					g.forceSvc[len(g.classes)-1] = shared
+				}
+			}
 			// a user of the name, living in one of the two packages, without an import
 			userPkg := c.pkg
 			if t.Bool(1, 2) {
@@ -306,7 +330,11 @@ func GenProject(t *tape.Tape, o Options) *Project {
 				uname += "U"
 			}
 			used[userPkg+"."+uname] = true
-			g.classes = append(g.classes, classInfo{pkg: userPkg, name: uname, methods: []string{g.pick(methodNames), "use"}})
+			um := []string{g.pick(methodNames), "use"}
+			if shared != "" {
+				um = []string{shared, "use"}
+			}
+			g.classes = append(g.classes, classInfo{pkg: userPkg, name: uname, methods: um})
 			g.forceField[len(g.classes)-1] = c.name
 		}
 	}
@@ -650,7 +678,9 @@ func (g *gctx) genFile(fi int) *JFile {
 				f.Apis = append(f.Apis, ApiTruth{Verb: verb, Uri: base + path, Body: body, Pkg: ci.pkg, Class: ci.name, Method: mn})
 			}
 		}
-		if g.o.ServiceMethod && f.Kind == "interface" && t.Bool(1, 4) {
+		if sm, ok := g.forceSvc[fi]; ok && sm == mn {
+			m.Annotations = append(m.Annotations, "@ServiceMethod")
+		} else if g.o.ServiceMethod && f.Kind == "interface" && len(g.forceSvc) == 0 && t.Bool(1, 4) {
 			m.Annotations = append(m.Annotations, "@ServiceMethod") // coca reports implementations of such methods as APIs
 		}
 		if ifaceMapped && t.Bool(2, 3) {
